@@ -726,7 +726,15 @@ def _do_xform(st, s, op):
         r = splitdim(f, op['dim'], op['new'], op['shape'])
     else:
         raise HarnessError('unknown xform %s' % name)
-    if r is None or r is f:
+    if r is f:
+        # "returns a new file": the receiver itself is the extreme case of a result
+        # that aliases its input (every later write to the result is a write to the
+        # input, closing the result closes the input)
+        raise Violation('result-aliases-other-file',
+                        '%s returned the file it was applied to (slot %d) instead of a new '
+                        'file' % (name, s.id),
+                        sig={'field': 'identity', 'via': name})
+    if r is None:
         return None, 'same-object'
     if not hasattr(r, 'variables') or not hasattr(r, 'dimensions'):
         return None, 'not-a-file'
